@@ -107,8 +107,16 @@ impl<T: Dbg> Dbg for &T { open spec fn debugged(&self) -> Seq<char> { (**self).d
 pub fn fmt_dbg<T: Dbg>(x: &T) -> (r: String) ensures r@ == x.debugged() { unimplemented!() }
 #[verifier::external_body]
 pub fn str_to_string(s: &str) -> (r: String) ensures r@ == s@ { unimplemented!() }
+pub uninterp spec fn shown_i64(n: i64) -> Seq<char>;
+impl Disp for i64 { open spec fn shown(&self) -> Seq<char> { shown_i64(*self) } }
+// `&s[..n]` / `&s[a..]` on a String: std panics unless the bound is a character boundary (ASSUMED contract; no proof of that is possible without knowing the text)
+pub uninterp spec fn on_char_boundary(s: Seq<char>, n: int) -> bool;
 #[verifier::external_body]
-pub fn render_token(t: Token) -> String { unimplemented!() }
+pub fn string_prefix(s: &String, n: usize) -> (r: String)
+    requires on_char_boundary(s@, n as int), // [C02_C03:the_text_of_a_diagnostic_is_only_sliced_at_character_boundaries]
+{ unimplemented!() }
+#[verifier::external_body]
+pub fn string_len(s: &String) -> (r: usize) { unimplemented!() }
 #[verifier::external_body]
 pub fn join_strings(xs: &Vec<String>) -> String { unimplemented!() }
 // "the position attached to a lexical error is that of the offending character, to a parse error that of the unexpected token"
@@ -196,6 +204,15 @@ def build(read):
     rpe, n2 = pr_unit.expand_format_macros(rpe, "render_parse_error", ("format",))
     rpe, n3 = re.subn(r"(\"(?:[^\"\\\\]|\\\\.)*\")\.to_string\(\)", r"str_to_string(\1)", rpe)
     b.edits.append(f"D6: render_parse_error: {n2} `format!` invocations expanded, {n3}x `\"..\".to_string()` -> str_to_string(..)")
+    # ---- render_token (no contract beyond Verus' own obligations: it must not be able to panic)
+    rt = extract.strip_comments(extract.extract_item(src, "fn", "render_token"))
+    b.copied.append(("fn", "render_token", "src/main.rs", extract.item_line(src, "fn", "render_token")))
+    rt, n4 = pr_unit.expand_format_macros(rt, "render_token", ("format",))
+    rt, n5 = re.subn(r"(\"(?:[^\"\\\\]|\\\\.)*\")\.to_string\(\)", r"str_to_string(\1)", rt)
+    rt, n6 = re.subn(r"&(\w+)\[\s*\.\.\s*([^\]]+)\]", r"string_prefix(&\1, \2)", rt)
+    rt, n7 = re.subn(r"\b(s)\.len\(\)", r"string_len(&\1)", rt)
+    b.edits.append(f"D6: render_token: {n4} `format!` invocations expanded, {n5}x `\"..\".to_string()` -> str_to_string(..), {n6}x `&s[..n]` -> string_prefix(&s, n) "
+                   f"(std slicing contract: the bound must be a character boundary), {n7}x `s.len()` -> string_len(&s)")
     rpe = extract.annotate_fn(rpe, spec="""
     ensures r.0 == parse_error_position(error), // [C09_C17_C18:the_position_of_a_syntax_error_is_where_the_offending_character_or_unexpected_token_starts]
 """)
@@ -213,7 +230,7 @@ def build(read):
         "// GENERATED on every run by /verif/verus/main_report.py from /repo's working tree - do not edit",
         MODEL,
         "pub type Location = (usize, usize);\npub type InterpSlot = (usize, usize);\n// ---- verbatim from src/lexer/mod.rs", tok, lerr,
-        "// ---- verbatim from src/main.rs", "pub " + err.lstrip(), rpe,
+        "// ---- verbatim from src/main.rs", "pub " + err.lstrip(), rt, rpe,
         "// ---- function under contract (verbatim body apart from the listed edits; contract text inserted)",
         "pub mod seed_main {\n    use super::*;\n" + f + "\n}", parts.FOOTER,
     ])
